@@ -1,4 +1,4 @@
-#!/bin/sh
+#!/bin/bash
 # Re-confirms every seeded change against the current /repo HEAD (scratch worktrees) and
 # rewrites seeded/*/meta.json.  usage: ./reseed.sh [jobs]
 HERE=$(cd "$(dirname "$0")" && pwd)
